@@ -194,19 +194,19 @@ package iobroker
 
 // ---- operator notices from the broker (C10)
 //@ func Broker.sendLine(b, color, addr, format, a)
-//@   props C10
+//@   props C10 C01 C04
 //@   ghost n int = 0
 //@   on send b.och(cl): assert(cl.Line == "[" + addr + "] " + sprintf(format, a) && cl.Color == color && !cl.Plain, "notice_is_addr_plus_message_verbatim"); n++
 //@   ensures one_line: n == 1
 
 //@ func Broker.Logf(b, addr, format, a)
-//@   props C10
+//@   props C10 C01 C04
 //@   ghost n int = 0
 //@   on enter Broker.sendLine(bb, c, ad, f, aa): assert(bb == b && ad == addr && f == format && aa == a, "forwarded_unchanged"); n++
 //@   ensures one_line: n == 1
 
 //@ func Broker.Errorf(b, addr, format, a)
-//@   props C10
+//@   props C10 C01 C04
 //@   ghost n int = 0
 //@   on enter Broker.sendLine(bb, c, ad, f, aa): assert(bb == b && ad == addr && f == format && aa == a, "forwarded_unchanged"); n++
 //@   ensures one_line: n == 1
